@@ -8,9 +8,9 @@ import (
 	"time"
 
 	simplefixgo "github.com/b2broker/simplefix-go"
+	"github.com/b2broker/simplefix-go/fix"
 	"github.com/b2broker/simplefix-go/session"
 	"github.com/b2broker/simplefix-go/session/messages"
-	"github.com/b2broker/simplefix-go/fix"
 	"github.com/b2broker/simplefix-go/storages/memory"
 	fixgen "github.com/b2broker/simplefix-go/tests/fix44"
 	"github.com/b2broker/simplefix-go/utils"
@@ -25,14 +25,14 @@ import (
 // ---------- C19: stored before sent; handlers in order; a refusal stops it ----------
 
 type HSpec struct {
-	Dir    string `json:"dir"`    // "out" | "in"
-	Type   string `json:"type"`   // "ALL" or a MsgType
-	Before bool   `json:"before"` // registered before the session is constructed
-	AfterLogon bool `json:"after_logon,omitempty"` // registered while the session is logged on (right before the send step LateAt): behind the handlers the session itself adds at logon
-	Mod    int    `json:"mod"`    // outgoing: refuse when callIndex % Mod == Rem (Mod 0: never)
-	Rem    int    `json:"rem"`
-	Modify bool   `json:"modify"` // outgoing: the handler changes the message (TargetCompID) before looking at it
-	Body   bool   `json:"body"`   // a modifying handler changes a body field in place through the generated setter (Text of MarketDataRequestReject / Reject / Logout) instead of the header
+	Dir        string `json:"dir"`                   // "out" | "in"
+	Type       string `json:"type"`                  // "ALL" or a MsgType
+	Before     bool   `json:"before"`                // registered before the session is constructed
+	AfterLogon bool   `json:"after_logon,omitempty"` // registered while the session is logged on (right before the send step LateAt): behind the handlers the session itself adds at logon
+	Mod        int    `json:"mod"`                   // outgoing: refuse when callIndex % Mod == Rem (Mod 0: never)
+	Rem        int    `json:"rem"`
+	Modify     bool   `json:"modify"` // outgoing: the handler changes the message (TargetCompID) before looking at it
+	Body       bool   `json:"body"`   // a modifying handler changes a body field in place through the generated setter (Text of MarketDataRequestReject / Reject / Logout) instead of the header
 }
 
 type C19Case struct {
@@ -42,11 +42,11 @@ type C19Case struct {
 	// the application removes one of its own handlers (Remove...Handler with the id it was given)
 	// right before the send step RemoveAt; -1: no removal
 	RefusedFirst  bool    `json:"refused_first,omitempty"` // acceptor: a Logon refused by the application's callback precedes the good one
-	HeldReuse     bool    `json:"held_reuse,omitempty"` // the history contains a stretch in which the peer is not reading (messages stay queued, buffer 10) and the application sends ONE message object 2-3 times with another MDReqID each time (steps named held-...)
-	Prior         *Script `json:"prior,omitempty"` // an earlier session on the same stores, after which the application reset both counters
-	LateAt        string `json:"late_at,omitempty"` // the send step before which the AfterLogon handlers are registered
-	RemoveHandler int    `json:"remove_handler"`
-	RemoveAt      string `json:"remove_at,omitempty"`
+	HeldReuse     bool    `json:"held_reuse,omitempty"`    // the history contains a stretch in which the peer is not reading (messages stay queued, buffer 10) and the application sends ONE message object 2-3 times with another MDReqID each time (steps named held-...)
+	Prior         *Script `json:"prior,omitempty"`         // an earlier session on the same stores, after which the application reset both counters
+	LateAt        string  `json:"late_at,omitempty"`       // the send step before which the AfterLogon handlers are registered
+	RemoveHandler int     `json:"remove_handler"`
+	RemoveAt      string  `json:"remove_at,omitempty"`
 }
 
 func genC19(t *rapid.T) *C19Case {
@@ -782,7 +782,8 @@ func TestC19(t *testing.T) {
 type C19DrainCase struct {
 	Script
 	SlowNs int64  `json:"slow_ns"`
-	End    string `json:"end"` // handlerstop | connclosed | teardown
+	Async  bool   `json:"async,omitempty"`
+	End    string `json:"end"` // handlerstop | connclosed | teardown | stopwitherror | stopwithnil
 }
 
 func genC19Drain(t *rapid.T) *C19DrainCase {
@@ -793,7 +794,7 @@ func genC19Drain(t *rapid.T) *C19DrainCase {
 	cfg.HBInt = rapid.IntRange(60, 120).Draw(t, "hb19")
 	g := &hgen{t: t, cfg: cfg, inSeq: 1}
 	c := &C19DrainCase{SlowNs: rapid.SampledFrom([]int64{1e6, 50e6, 1e9}).Draw(t, "slowNs"),
-		End: rapid.SampledFrom([]string{"handlerstop", "connclosed", "teardown"}).Draw(t, "end")}
+		End: rapid.SampledFrom([]string{"handlerstop", "connclosed", "teardown", "stopwitherror", "stopwithnil"}).Draw(t, "end")}
 	c.Cfg = cfg
 	c.Steps = append(c.Steps, rig.Step{Op: "in", In: g.goodLogon(0)})
 	nb := rapid.IntRange(1, 3).Draw(t, "bursts")
@@ -815,7 +816,19 @@ func genC19Drain(t *rapid.T) *C19DrainCase {
 		}
 	}
 	if c.End != "teardown" {
+		// (not with Stop(): that cancels the handler's context, and a message still waiting in ServeIncoming is then dropped by design)
+		if c.End != "handlerstop" && rapid.IntRange(0, 2).Draw(t, "asyncPump") == 0 {
+			// the last burst is fed by the connection's own pump goroutine: when the end comes a message
+			// may be waiting in ServeIncoming (with buffer 0: not yet in any queue)
+			c.Steps[len(c.Steps)-1].Kind = "async"
+			c.Async = true
+			c.Cfg.Buf = rapid.SampledFrom([]int{0, 0, 1, 2, 10}).Draw(t, "bufAsync")
+		}
 		c.Steps = append(c.Steps, rig.Step{Op: c.End})
+		if c.Async {
+			// the application lets the handler finish what it holds before it tears anything down
+			c.Steps = append(c.Steps, rig.Step{Op: "advance", Dt: 40 * c.SlowNs})
+		}
 	}
 	c.MaxHB = g.maxHB
 	return c
@@ -869,13 +882,26 @@ func checkC19Drain(c *C19DrainCase, rec *evid.Rec) (vs []pbt.Violation) {
 	// backlog at the instant of the stop: injected before, offered after
 	stopAt := -1
 	for i, e := range evs {
-		if e.Kind == "step" && (e.Name == "handlerstop" || e.Name == "connclosed") {
+		if e.Kind == "step" && (e.Name == "handlerstop" || e.Name == "connclosed" || e.Name == "stopwitherror" || e.Name == "stopwithnil") {
 			stopAt = i
 		}
 	}
 	_ = stopAt
+	injectedAt := map[string]int{}
+	for i, e := range evs {
+		if e.Kind == "inject" {
+			injectedAt[string(e.Bytes)] = i
+		}
+	}
 	for k, b := range injected {
 		typ, _ := ref.Lookup(b, rig.TagMsgType)
+		if c.Async && stopAt >= 0 && injectedAt[string(b)] > stopAt {
+			// handed to ServeIncoming by the pump after the end had been requested: it may or may not make it
+			if offeredAll[string(b)] > 1 {
+				vs = append(vs, pbt.V("inbound-offered-twice:"+c.End, "inbound message %d (%s) was offered %d times to the all-types handler", k+1, typ, offeredAll[string(b)]))
+			}
+			continue
+		}
 		if offeredAll[string(b)] != 1 {
 			vs = append(vs, pbt.V("inbound-not-offered:"+c.End, "inbound message %d of %d (%s) was accepted by ServeIncoming but offered %d times to the all-types handler (slow handler %v, buffer %d, handler ended by %s): %s", k+1, len(injected), typ, offeredAll[string(b)], time.Duration(c.SlowNs), c.Cfg.Buf, c.End, ref.Show(b)))
 			break
@@ -897,6 +923,9 @@ func checkC19Drain(c *C19DrainCase, rec *evid.Rec) (vs []pbt.Violation) {
 	nontrivial := maxBacklog >= 2
 	rec.Case(evid.FPs(fmt.Sprintf("%s|%d|%d|%s|%d", c.Cfg.Role, c.Cfg.Buf, c.SlowNs, c.End, len(injected))), nontrivial)
 	rec.Hist("drain:end:" + c.End)
+	if c.Async {
+		rec.Hist("drain:pump-on-its-own-goroutine")
+	}
 	if maxBacklog >= 2 {
 		rec.Hist("drain:backlog>=2")
 	}
